@@ -53,29 +53,30 @@ Definition so_of_alignment (a : alignment) : stroke_offset :=
 Definition so_eqb (a b : stroke_offset) : bool :=
   match a, b with SONone, SONone | SOLeft, SOLeft | SORight, SORight => true | _, _ => false end.
 
-(* triangle/mod.rs:249-283  is_collapsed (on the clockwise triangle) *)
+(* triangle/mod.rs:256-281: the closure of `any` in is_collapsed for the join `j` and the opposite side a -> b *)
+Definition collapsed_one (j : option line_join) (a b : point) (w : Z) (so : stroke_offset) : option bool :=
+  match j with
+  | None => None
+  | Some j =>
+      if is_degenerate j then Some true
+      else
+        match extents (L a b) w so with
+        | Some (_, opposite) => Some (le_check_side (le_from_line opposite) (ec_right (first_edge_end j)) SLeft)
+        | None => None
+        end
+  end.
+
+(* triangle/mod.rs:249-283  is_collapsed (on the clockwise triangle); `any` stops at the first true *)
 Definition jt_is_collapsed (t : tri3) (w : Z) (so : stroke_offset) : option bool :=
   let '(p1, p2, p3) := t in
-  let one (j : option line_join) (a b : point) : option bool :=
-    match j with
-    | None => None
-    | Some j =>
-        if is_degenerate j then Some true
-        else
-          match extents (L a b) w so with
-          | Some (_, opposite) => Some (le_check_side (le_from_line opposite) (ec_right (first_edge_end j)) SLeft)
-          | None => None
-          end
-    end in
-  (* `any` stops at the first true *)
-  match one (lj_from_points p3 p1 p2 w so) p2 p3 with
+  match collapsed_one (lj_from_points p3 p1 p2 w so) p2 p3 w so with
   | None => None
   | Some true => Some true
   | Some false =>
-      match one (lj_from_points p1 p2 p3 w so) p3 p1 with
+      match collapsed_one (lj_from_points p1 p2 p3 w so) p3 p1 w so with
       | None => None
       | Some true => Some true
-      | Some false => one (lj_from_points p2 p3 p1 w so) p1 p2
+      | Some false => collapsed_one (lj_from_points p2 p3 p1 w so) p1 p2 w so
       end
   end.
 
